@@ -103,6 +103,11 @@ def _r(rng, lo, hi, nd=4):
     return round(rng.uniform(lo, hi), nd)
 
 
+def _rz(rng, lo, hi, nd=4):
+    """like _r but exactly 0.0 now and then (falsy values are where `if value:` slips hide)"""
+    return 0.0 if rng.random() < 0.1 else _r(rng, lo, hi, nd)
+
+
 def g_elements(rng, allow_none=False):
     if allow_none and rng.random() < 0.3:
         return None
@@ -144,7 +149,7 @@ def g_cov(rng):
     n = rng.randint(1, 4)
     iv = sorted(set([0.0] + [_r(rng, 0.05, 1.0, 3) for _ in range(n - 1)]))
     return {'type': 'PiecewiseCovEffect', 'name_i': rng.choice(NAMES), 'name_j': rng.choice(NAMES),
-            'intervals': iv, 'slopes': [_r(rng, -60, 60, 2) for _ in iv],
+            'intervals': iv, 'slopes': [_rz(rng, -60, 60, 2) for _ in iv],
             'name': rng.choice([None, 'cov_1', 'lat_A_B'])}
 
 
@@ -181,7 +186,7 @@ def g_reference(rng, name, elements):
     model = S.gen_statmech(rng, name=name, gas=rng.random() < 0.5, with_elements=False)
     return {'type': 'Reference', 'name': name, 'phase': rng.choice(['G', 'S', None]),
             'elements': elements, 'T_ref': rng.choice([298.15, 298.15, _r(rng, 200, 600, 2)]),
-            'HoRT_ref': _r(rng, -150, 50, 5), 'model': model, 'notes': rng.choice(NOTES),
+            'HoRT_ref': _rz(rng, -150, 50, 5), 'model': model, 'notes': rng.choice(NOTES),
             'smiles': rng.choice(SMILES)}
 
 
@@ -254,7 +259,7 @@ def g_species(rng, name, kinds, rich):
 
 
 def g_bep(rng, omkm=False, named=False):
-    n = {'type': 'omkm.BEP' if omkm else 'BEP', 'slope': _r(rng, 0, 1), 'intercept': _r(rng, 0, 60, 3),
+    n = {'type': 'omkm.BEP' if omkm else 'BEP', 'slope': _rz(rng, 0, 1), 'intercept': _rz(rng, 0, 60, 3),
          'name': rng.choice(['BEP_CH', 'bep 2'] + ([] if named else [None])),
          'descriptor': rng.choice(DESCRIPTORS), 'elements': g_elements(rng, allow_none=True),
          'notes': rng.choice(NOTES)}
@@ -346,7 +351,7 @@ def g_reactions(rng, cls='Reactions'):
 
 def g_lsr(rng):
     floats = rng.random() < 0.4
-    n = {'type': 'LSR', 'slope': _r(rng, 0, 1), 'intercept': _r(rng, -30, 30, 3), 'notes': rng.choice(NOTES)}
+    n = {'type': 'LSR', 'slope': _rz(rng, 0, 1), 'intercept': _rz(rng, -30, 30, 3), 'notes': rng.choice(NOTES)}
     if floats:
         n['reaction'] = _r(rng, -80, 0, 3)
         n['surf_species'] = rng.choice([0.0, _r(rng, -500, 0, 3)])
@@ -831,8 +836,27 @@ class Cmp:
             self.class_mismatch = True
             ctx.fail('J2', self.mech(**{'class': cn, 'step': 'same_class', 'got': got}),
                      decoded=_short(b))
+            if isinstance(b, dict):
+                # The registry does not know the class.  The input already violates the property;
+                # to keep every further loss of this class visible (and individually listable) go
+                # on with what the class's own from_dict makes of the dictionary, marked via=from_dict
+                try:
+                    b2 = type(a).from_dict(dict(b))
+                except Exception as e:          # noqa
+                    ctx.fail('J2', self.mech(**{'class': cn, 'step': 'decode', 'via': 'from_dict',
+                                                'exc': type(e).__name__, 'at': _at(e, 'from_dict')}),
+                             message=str(e)[:300])
+                    return True
+                if type(b2) is type(a):
+                    # only this object's own attributes / getters carry the mark; its children were
+                    # decoded by the object hook in the ordinary way
+                    self._same(a, b2, cn, depth, {'via': 'from_dict'})
             return True
         ctx.held('J2')
+        return self._same(a, b, cn, depth, {})
+
+    def _same(self, a, b, cn, depth, tag):
+        ctx = self.ctx
         self.active.add(id(a))
         is_rxn = hasattr(a, 'reactants_stoich')
         if is_rxn:
@@ -856,15 +880,15 @@ class Cmp:
                     ctx.held('J4')
                 else:
                     own_dirty = True
-                    ctx.fail('J4', self.mech(**{'class': cn, 'step': 'attr', 'attr': name}),
+                    ctx.fail('J4', self.mech(**dict({'class': cn, 'step': 'attr', 'attr': name}, **tag)),
                              got=_short(got), want=_short(want))
             if own_dirty or child_dirty:
                 ex = ctx.extra.setdefault('getters_shadowed', {})
                 ex[cn] = ex.get(cn, 0) + 1
                 if own_dirty and not child_dirty:
-                    self.getters(a, b, cn, telemetry=True)
+                    self.getters(a, b, cn, tag, telemetry=True)
             else:
-                own_dirty |= self.getters(a, b, cn)
+                own_dirty |= self.getters(a, b, cn, tag)
             return own_dirty or child_dirty
         finally:
             self.active.discard(id(a))
@@ -872,7 +896,7 @@ class Cmp:
                 self.rxn_stack.pop()
 
     # ---- getters -----------------------------------------------------------------------
-    def getters(self, a, b, cn, telemetry=False):
+    def getters(self, a, b, cn, tag, telemetry=False):
         ctx = self.ctx
         dirty = False
         has_ts = getattr(a, 'transition_state', None) is not None
@@ -893,7 +917,7 @@ class Cmp:
                     ex = ctx.extra.setdefault('getter_skipped_original_raises', {})
                     ex[cn + '.' + name] = ex.get(cn + '.' + name, 0) + 1
                     continue
-                m = self.mech(**{'class': cn, 'step': 'getter', 'getter': name})
+                m = self.mech(**dict({'class': cn, 'step': 'getter', 'getter': name}, **tag))
                 try:
                     vb = getattr(b, name)(**kw)
                 except Exception as e:      # noqa
@@ -923,37 +947,6 @@ class Cmp:
                     dirty = True
                     ctx.fail('J3', m, got=fb, want=fa, err=e, tol=TOL, kwargs=_short(kw))
         return dirty
-
-
-class _Silent:
-    """Recorder with the Ctx interface that turns verdicts into telemetry counters."""
-
-    def __init__(self, ctx, key):
-        self.ctx = ctx
-        self.key = key
-        self.extra = {}
-        self.max_err = {}
-
-    def held(self, oracle, n=1):
-        pass
-
-    def fail(self, oracle, mech=None, **detail):
-        m = mech or {}
-        k = '%s.%s.%s' % (m.get('class'), m.get('step'), m.get('attr') or m.get('getter') or m.get('got'))
-        ex = self.ctx.extra.setdefault(self.key, {})
-        ex[k] = ex.get(k, 0) + 1
-        return False
-
-    def err(self, got, want, scale=None):
-        return self.ctx.err(got, want, scale)
-
-    def close(self, oracle, got, want, tol, mech=None, scale=None, **detail):
-        if self.err(got, want, scale) <= tol:
-            return True
-        return self.fail(oracle, mech)
-
-    def check(self, oracle, cond, mech=None, **detail):
-        return True if cond else self.fail(oracle, mech)
 
 
 def _tele(ctx, cn, name):
@@ -1209,20 +1202,23 @@ def _responsible(e, method, fallback):
     return who or fallback
 
 
-def _at(e):
-    """name of the innermost pMuTT function on the traceback (discriminates mechanisms)"""
+def _at(e, method):
+    """Coarse, stable location of a failure: the pMuTT function that the innermost to_dict /
+    from_dict called (or that method itself when it failed in its own body)."""
     import traceback
-    best = ''
     seen = 0
+    fallback = ''
     while e is not None and seen < 4:
-        for fr in traceback.extract_tb(e.__traceback__):
-            if '/pmutt/' in fr.filename:
-                best = fr.name
-        if best and best != 'default':
-            return best
+        frames = [fr for fr in traceback.extract_tb(e.__traceback__) if '/pmutt/' in fr.filename]
+        idx = [i for i, fr in enumerate(frames) if fr.name == method]
+        if idx:
+            i = idx[-1]
+            return frames[i + 1].name if i + 1 < len(frames) else method
+        if frames and not fallback:
+            fallback = frames[-1].name
         e = e.__context__
         seen += 1
-    return best
+    return fallback
 
 
 def _unserialisable(o, owner, key, depth=0):
@@ -1345,7 +1341,7 @@ def _encode(ctx, obj, top, repeat):
         txt = json.dumps(obj, cls=pmuttEncoder)
     except Exception as e:                         # noqa: J1 violated
         who = _responsible(e, 'to_dict', None)
-        m = {'step': 'encode', 'exc': type(e).__name__, 'at': _at(e)}
+        m = {'step': 'encode', 'exc': type(e).__name__, 'at': _at(e, 'to_dict')}
         if who is None:
             r = _unserialisable(obj, top, None)
             if r:
@@ -1367,7 +1363,7 @@ def _decode(ctx, txt, top, repeat):
         new = json.loads(txt, object_hook=json_to_pmutt)
     except Exception as e:                         # noqa: J2 violated
         m = {'class': _responsible(e, 'from_dict', top), 'step': 'decode', 'exc': type(e).__name__,
-             'at': _at(e)}
+             'at': _at(e, 'from_dict')}
         if repeat:
             m['cycle'] = 'repeat'
         ctx.fail('J2', m, message=str(e)[:300], top=top, where=core._tb_where(e))
@@ -1416,19 +1412,6 @@ def run_case(spec, ctx):
     cmp1 = Cmp(ctx, spec['conds'], probe)
     cmp1.dirty = cmp1.obj(obj, o1)
     if type(o1) is not type(obj):
-        # the class is not restored; if its own from_dict would not cope either, say so (telemetry)
-        if isinstance(o1, dict):
-            ex = ctx.extra.setdefault('unregistered_from_dict', {})
-            r = None
-            try:
-                r = type(obj).from_dict(dict(o1))
-                k = '%s:%s' % (top, 'ok' if type(r) is type(obj) else 'wrong:' + type(r).__name__)
-            except Exception as e:                 # noqa
-                k = '%s:raises_%s' % (top, type(e).__name__)
-            ex[k] = ex.get(k, 0) + 1
-            if r is not None and type(r) is type(obj):
-                # what would still be lost if the class were registered (telemetry, no verdict)
-                Cmp(_Silent(ctx, 'behind_unregistered'), spec['conds'], probe).obj(obj, r)
         return
 
     # ---- J5: direct use of the object hook on a dictionary ---------------------------------------
